@@ -143,6 +143,15 @@ def run_case(kind, p):
             msgs.append(f"using the stack raised {type(e).__name__}: {e}")
     elif kind == "feature_vector":
         pat = impl.pattern_from(p["pattern"])
+        if p.get("radial_map"):
+            # a RadialGradientBackgroundSubtraction with the caller's own radius map (elliptical, or in other units than pixels):
+            # the support of its mask is not bounded by radius_outer in pixels
+            rm = p["radial_map"]
+            size = int(rm["size"])
+            rmap, _ = masks.polar_map(centerX=size // 2, centerY=size // 2, imageSizeX=size, imageSizeY=size,
+                                      stretchY=rm["stretch"], angle=rm["angle"])
+            pat = pt.RadialGradientBackgroundSubtraction(radius=p["pattern"]["radius"], search=p["pattern"]["search"],
+                                                         radius_outer=p["pattern"]["radius_outer"], radial_map=rmap * rm["unit"])
         peaks = np.asarray(p["peaks"])
         sy, sx = p["sy"], p["sx"]
         c = pat.get_crop_size()
@@ -205,6 +214,13 @@ def search(ctx, boost=1, focus=()):
         sy, sx = int(rng.integers(4, 41)), int(rng.integers(4, 41))
         peaks = np.stack([rng.integers(-2, sy + 2, 5), rng.integers(-2, sx + 2, 5)], axis=1)
         p = {"pattern": pat, "peaks": peaks, "sy": sy, "sx": sx}
+        if (k // 4) % 2 == 1:
+            r_ = float(rng.integers(2, 5))
+            srch = float(rng.integers(9, 14))
+            p = {"pattern": {"kind": "rgbs", "radius": r_, "radius_outer": r_ * 1.5, "search": srch}, "peaks": peaks, "sy": sy, "sx": sx,
+                 "radial_map": {"size": 2 * int(srch) + 6, "stretch": float(rng.choice([2.0, 0.5, 1.0])),
+                                "angle": float(rng.uniform(0, 3.1)), "unit": float(rng.choice([0.5, 1.0, 0.4]))}}
+            ctx.count("feature_vector_radial_map")
         ctx.oracle_case("feature_vector", p, run_case("feature_vector", p))
         p = {"sy": sy, "sx": sx, "radius": float(np.round(rng.uniform(0.5, 8), 2)) if k % 3 else
              float(np.hypot(int(rng.integers(0, 7)), int(rng.integers(1, 7)))),      # the distance of a lattice neighbour
